@@ -285,6 +285,12 @@ CORPUS = [
     ["a.com/Index.html", "a.com/Index.html/index.html"],
     ["http://a.com/x%E3%80%80"],
     ["a.com?k=a=b&k=a5"],
+    # FX-C01-PLUS ('+' is a space in a query, %2B a plus sign: two canonical forms, in both modes) and the half
+    # fix that seeded change C03-4 makes ('+' unsafe for the unquoter while safely_quote still escapes it): the
+    # sibling item sorts between '%' and '+'
+    ["http://a.com/s?tag=rock+roll&tag=rock'n'roll", "http://a.com/s?tag=rock%2Broll&tag=rock'n'roll"],
+    ["http://a.com/?a+b=1&a*b=2", "http://a.com/?a%2Bb=1&a*b=2", "http://a.com/?a%2bb=1&a*b=2"],
+    ["http://a.com/p?a=%2B&b=+", "http://a.com/p?b=+&a=%2B"],
     # FX-C02-f918741 (formerly KF-C03-5): unknown scheme + empty authority
     ["localhost://?a", "custom:///p"],
     # cleaning order: control characters go first, then the surrounding whitespace
